@@ -5,7 +5,10 @@ Sub-checks
   ktfun      ktensor.from_function over every shape x rank
   diag       tendiag / sptendiag : element vectors x requested shapes (shorter, longer, None)
   eye        teneye : closed form + identity action on unit vectors; odd orders rejected
-  agg        sptensor.from_aggregator : every subscript word x value word x reducer
+  agg        sptensor.from_aggregator : every subscript word x value word x reducer x value STORAGE dtype
+             (float64 / int64 / single and half precision / narrow signed and unsigned integers with their extreme
+             values / booleans); reference = the reducer applied to the values as NUMBERS (exact Python arithmetic,
+             i.e. numpy's own reduction convention: a combined value may leave the storage of the inputs)
   sprand     sptenrand / sptensor.from_function under the global seed (seeded mode)
   script     the same two generators under a scripted random source (environment explorer)
 
@@ -31,7 +34,14 @@ RULE = ("product explorer over (generator x argument tuple) with every argument 
         "are enumerated (cells^k <= cap) and, from each default policy (cycle, reverse cycle, each cell twice, "
         "constant cell c, lowest/highest representable draw), every script with <= D deviations.  Non-trivial: a "
         "shape with >= 2 cells and a reference answer that is neither empty nor all-equal (dense generators: >= 2 "
-        "cells; aggregator: a repeated subscript; random generators: 1 <= k, draw word with a collision or k >= 2).")
+        "cells; aggregator: a repeated subscript; random generators: 1 <= k, draw word with a collision or k >= 2).  "
+        "Aggregator values carry a storage dtype: the complete subscript words run float64 (and, up to two subscripts, int64 "
+        "and every other storage); beyond two subscripts the other storages run on one subscript word per set partition of "
+        "the positions (multiplicity pattern, groups bound to unsorted cells).  Each storage has its own alphabet of exactly "
+        "held values: the generic letters plus, for integer storages narrower than the platform integer, the extreme values "
+        "of the dtype, so that sums/products of duplicates leave the storage; the reference combines Python numbers exactly "
+        "and a case is inadmissible only when the combined value leaves the platform integer.  Diagonal generators also "
+        "receive their element vector in int64 / int8 / float32 / boolean storage.")
 ASSUMPTIONS = [
     "reference semantics in mc/props/C20.py and mc/refmodel.py (loops, Python dict/list reducers) are correct",
     "results are observed through their attributes (data / subs / vals / weights / factor_matrices / shape)",
@@ -39,6 +49,9 @@ ASSUMPTIONS = [
     "(uniform, random_sample, rand, choice, permutation, randint, shuffle); any other draw function raises under "
     "the scripted source and is reported",
     "seeded mode: numpy.random.seed(s) for the enumerated seed alphabet is the 'global seed' of the statement",
+    "aggregator: 'combining with the reducer' is read on the values as numbers (numpy's reduction convention: sum/prod of "
+    "booleans and narrow integers are taken in the platform integer); results that leave int64 are not asserted; a floating "
+    "storage may round the combined value once to its own precision",
     "a request of exactly all cells through nonzeros=/from_function may be rejected with the documented "
     "AssertionError; density=1.0 is documented as admissible for sptenrand and must succeed",
 ]
@@ -47,7 +60,11 @@ BOUNDS = {
              "tenrand seeds 0-3 + scripted values; diag: element vectors length 1-3 (no zero / each single zero) x {None + "
              "every shape of order 1-3, sizes 1-3}; eye: orders 2,4,6 x sizes 1-3 x 63 integer directions, odd orders "
              "1,3,5 rejected; agg: every word of <=3 subscripts over 2x2 (explicit / inferred / larger shape), (3,), "
-             "(2,1,2) x every value word over {2,-2,3,0} x 7 reducers, words of 4 subscripts over 2x2 x 9 value words; "
+             "(2,1,2) x every value word over {2,-2,3,0} x 7 reducers, words of 4 subscripts over 2x2 x 9 value words; value "
+             "storage: float64 everywhere, <=2 subscripts also int64 + {float32, float16, int32, int16, int8, uint64, uint32, "
+             "uint16, uint8, bool} x every value word over the storage's alphabet ({2,-2|1,3,0} + dtype max/min for <64-bit "
+             "integers; bool {1,0}) x 7 reducers + default argument; 3 subscripts: the 5 set-partition words over 2x2 x these "
+             "10 storages x every value word; diag element storage float64/int64/int8/float32/bool; "
              "sprand (seeded): shapes order<=3,size<=3,cells<=9 x k=0..cells x {nonzeros, density k/cells, count, "
              "fraction, sub-1 density} x seeds 0-7, each twice; script: shapes (2,),(3,),(1,3),(2,2),(2,1,2) x k=1..cells "
              "x {sptenrand, from_function}: every first-attempt draw word x 2 continuations + policies {cycle, reverse "
@@ -55,7 +72,8 @@ BOUNDS = {
              "collide (m in 1,2,3,5,9,10,11,15,19,20,21): 2 deviations while the estimate <= 8000 scripts, else 1}",
     "thorough": "dense/ktfun: order<=5,size<=3,cells<=48; diag: lengths 1-4, shapes order<=4; eye adds (8,2); agg: 2x2 "
                 "explicit shape: every word of <=4 subscripts x every value word + 5 subscripts x 9 value words; other "
-                "spaces (adds (2,3) inferred, (2,2,2)): <=3 complete, 4 subscripts x 9 value words (<=6 cells); sprand: "
+                "spaces (adds (2,3) inferred, (2,2,2)): <=3 complete, 4 subscripts x 9 value words (<=6 cells); value storage as in quick plus "
+                "the 15 set-partition words of 4 subscripts x 10 storages x every value word; sprand: "
                 "shapes order<=4,size<=4,cells<=16 x seeds 0-31 + (4,4,4),(2,3,4) at 7 fill levels; script: adds (4,),"
                 "(2,3),(2,2,2),(3,3); first-attempt words complete while cells^k <= 50000 (else the first d draws); "
                 "2 deviations while the estimate <= 35000 scripts, else 1",
@@ -320,6 +338,39 @@ def _diag_elements(maxlen):
 
 AGG_FNS = ["sum", "max", "min", "prod", "call:max", "call:count", "call:mean"]
 AGG_VALUES = (2.0, -2.0, 3.0, 0.0)   # 0.0: an explicit zero input value is a group member like any other
+# value STORAGE dtypes of the aggregator ("float"/"int" are the two original ones: float64 / int64 over AGG_VALUES);
+# every other storage gets its own alphabet of values it holds exactly (_letters)
+AGG_STORAGE = ("float32", "float16", "int32", "int16", "int8", "uint64", "uint32", "uint16", "uint8", "bool")
+_I64 = (-2 ** 63, 2 ** 63 - 1)
+
+
+def _letters(vd):
+    """Value alphabet of a storage dtype, as Python numbers the dtype holds exactly: the four generic letters
+    (2, -2, 3, 0; an unsigned storage has 1 in place of -2; booleans are {1, 0}) plus, for the integer storages
+    narrower than the platform integer, the extreme values of the dtype (a combined value can leave the storage)."""
+    d = np.dtype(vd)
+    if d.kind == "f":
+        return [2.0, -2.0, 3.0, 0.0]
+    if d.kind == "b":
+        return [1, 0]
+    ii = np.iinfo(d)
+    if d.kind == "i":
+        return [2, -2, 3, 0] + ([int(ii.max), int(ii.min)] if d.itemsize < 8 else [])
+    return [2, 1, 3, 0] + ([int(ii.max)] if d.itemsize < 8 else [])
+
+
+def _storage_kind(vd):
+    return {"f": "float", "b": "bool", "i": "int", "u": "uint"}[np.dtype(vd).kind]
+
+
+def _growth_words(L):
+    """Restricted growth strings of length L: one representative per set partition of the L positions."""
+    out = [[0]] if L >= 1 else [[]]
+    for _ in range(L - 1):
+        out = [w + [g] for w in out for g in range(max(w) + 2)]
+    return out
+
+
 _NINE = [(0, 0, 0, 0, 0), (0, 1, 0, 1, 0), (1, 0, 2, 0, 1), (2, 1, 0, 2, 1), (0, 1, 2, 0, 1), (2, 2, 1, 1, 0),
          (1, 1, 1, 1, 1), (0, 2, 1, 0, 2), (1, 0, 0, 1, 2)]
 
@@ -433,6 +484,17 @@ def gen_cases(tier, seed):
             for w in itertools.product(range(len(cl)), repeat=L):
                 yield {"check": "agg", "shape": shp, "subs": [cl[i] for i in w], "nd": len(ispace),
                        "vals": "all" if L <= full_len else "nine"}
+    # value storage x multiplicity pattern: beyond the two subscripts of the complete words above, one subscript word per
+    # set partition of the positions (groups bound to the cells in the unsorted order 3,0,2,1 of the 2x2 space)
+    cl = [list(c) for c in space.cells((2, 2))]
+    bind = [cl[3], cl[0], cl[2], cl[1]]
+    for L in (3, 4) if thorough else (3,):
+        for g in _growth_words(L):
+            for vd in AGG_STORAGE if L == 4 else (None,):
+                c = {"check": "agg", "shape": [2, 2], "subs": [bind[i] for i in g], "nd": 2, "vals": "storage"}
+                if vd:
+                    c["vdtype"] = vd
+                yield c
 
 
 # =====================================================================================
@@ -500,7 +562,7 @@ def _check_sparse(p, op, S, want, variant="", nnz=None):
         return False
     if not p.expect(op, _shape_ok(S, want.shape), "wrong_shape", f"{S.shape!r} want {want.shape}", variant):
         return False
-    got = O.scatter(S.shape, S.subs, S.vals)
+    got = O.scatter(S.shape, S.subs, np.asarray(S.vals, dtype=float))   # values are compared as NUMBERS (True is 1)
     ok = p.expect(op, rm.same(got, want), "wrong_value",
                   f"subs={_tl(S.subs)} vals={_tl(S.vals)} want={np.asarray(want).tolist()}", variant)
     k = int(np.count_nonzero(want)) if nnz is None else nnz
@@ -683,6 +745,11 @@ def _run_diag(case, ctx):
     p = Probe(ctx, case)
     eforms = [("array", lambda: np.array(el, dtype=float)), ("list", lambda: list(el)),
               ("column", lambda: np.array(el, dtype=float).reshape(-1, 1))]
+    # element STORAGE: the (integer-valued) elements held as platform / narrow integers, single precision, booleans
+    eforms += [("int64", lambda: np.array(el, dtype=np.int64)), ("int8", lambda: np.array(el, dtype=np.int8)),
+               ("float32", lambda: np.array(el, dtype=np.float32))]
+    refs = {"bool": _diag_ref([1.0 if b else 0.0 for b in case["pat"]], shape)}   # the 0/1 pattern itself as booleans
+    eforms.append(("bool", lambda: np.array(case["pat"], dtype=bool)))
     for ename, mk in eforms:
         for order in ("F", "C"):
             if ename != "array" and order == "C":
@@ -693,13 +760,13 @@ def _run_diag(case, ctx):
             else:
                 ok, T = p.call("tendiag", lambda: ttb.tendiag(mk(), shape, order=order), v)
             if ok:
-                _check_dense(p, "tendiag", T, A, v)
+                _check_dense(p, "tendiag", T, refs.get(ename, A), v)
         v = ename
         if shape is None:
             ok, S = p.call("sptendiag", lambda: ttb.sptendiag(mk()), v)
         else:
             ok, S = p.call("sptendiag", lambda: ttb.sptendiag(mk(), shape), v)
-        if ok and _check_sparse(p, "sptendiag", S, A, v):
+        if ok and _check_sparse(p, "sptendiag", S, refs.get(ename, A), v):
             ctx.outcome([S.subs, S.vals, list(S.shape)])
 
 
@@ -801,21 +868,22 @@ def _run_eye(case, ctx):
 
 
 def _reduce(fn, vals):
-    if fn in ("sum",):
-        return float(sum(vals))
+    """Reference reducers on Python numbers (integers stay exact integers)."""
+    if fn in ("sum", "default"):
+        return sum(vals)
     if fn in ("max", "call:max"):
-        return float(max(vals))
+        return max(vals)
     if fn == "min":
-        return float(min(vals))
+        return min(vals)
     if fn == "prod":
-        r = 1.0
+        r = 1
         for v in vals:
-            r *= v
+            r = r * v
         return r
     if fn == "call:count":
-        return float(len(vals))
+        return len(vals)
     if fn == "call:mean":
-        return float(sum(vals)) / len(vals)
+        return sum(vals) / len(vals)
     raise ValueError(fn)
 
 
@@ -829,9 +897,11 @@ def _fn_arg(fn):
     return fn
 
 
-def _value_words(case, L):
+def _value_words(case, L, vd="float"):
     if "vals_list" in case:
         return [tuple(case["vals_list"])]
+    if vd not in ("float", "int"):
+        return list(itertools.product(_letters(vd), repeat=L))
     if case.get("vals") == "nine":
         seen, out = set(), []
         for w in _NINE:
@@ -843,6 +913,46 @@ def _value_words(case, L):
     return list(itertools.product(AGG_VALUES, repeat=L))
 
 
+def _agg_dtypes(case, L):
+    """Value storages of one subscript word: the complete words carry float64 (+ int64 and every other storage up to two
+    subscripts); the multiplicity-pattern words ("storage") carry every storage other than the two original ones."""
+    if "vdtype" in case:
+        return [case["vdtype"]]
+    if case.get("vals") == "storage":
+        return list(AGG_STORAGE)
+    if case.get("vals") == "all" and L <= 2:
+        return ["float", "int"] + list(AGG_STORAGE)
+    return ["float", "int"] if L <= 2 else ["float"]
+
+
+def _check_combined(p, op, S, out_shape, want, variant):
+    """Exact comparison of the stored entries with {subscript: combined value} (Python numbers; a floating storage
+    may round the combined value once to its own precision)."""
+    import pyttb as ttb
+
+    if not p.expect(op, isinstance(S, ttb.sptensor), "wrong_type", type(S).__name__, variant):
+        return False
+    probs = O.wf_sptensor(S)
+    if not p.expect(op, not probs, "malformed:" + ",".join(probs), f"subs={_tl(S.subs)} vals={_tl(S.vals)}", variant):
+        return False
+    if not p.expect(op, _shape_ok(S, out_shape), "wrong_shape", f"{S.shape!r} want {out_shape}", variant):
+        return False
+    vals = np.asarray(S.vals).reshape(-1)
+    got = {} if not vals.size else {tuple(int(i) for i in r): v.item() for r, v in zip(np.asarray(S.subs), vals)}
+    got = {s: (int(v) if isinstance(v, bool) else v) for s, v in got.items()}
+
+    def eq(g, w):
+        if g == w:
+            return True
+        return vals.dtype.kind == "f" and isinstance(w, float) and g == float(vals.dtype.type(w))
+
+    good = set(got) == set(want) and all(eq(got[s], want[s]) for s in want)
+    ok = p.expect(op, good, "wrong_value",
+                  f"stored {sorted(got.items())} ({vals.dtype}) want {sorted(want.items())}", variant)
+    ok &= p.expect(op, S.nnz == len(want), "wrong_nnz", f"{S.nnz} != {len(want)}", variant)
+    return ok
+
+
 def _run_agg(case, ctx):
     import pyttb as ttb
 
@@ -851,39 +961,67 @@ def _run_agg(case, ctx):
     nd = case["nd"]
     shp = None if case["shape"] is None else tuple(case["shape"])
     out_shape = shp if shp is not None else tuple(max(r[k] for r in subs) + 1 for k in range(nd))
-    fns = [case["fn"]] if "fn" in case else AGG_FNS
-    dtypes = [case["vdtype"]] if "vdtype" in case else (["float", "int"] if L <= 2 else ["float"])
     ctx.state()
     dup = len(set(subs)) < L
-    for vw in _value_words(case, L):
-        for fn in fns:
-            for vd in dtypes:
+    for vd in _agg_dtypes(case, L):
+        orig = vd in ("float", "int")
+        # a storage other than the two original ones is also sent through the default reducer argument
+        fns = [case["fn"]] if "fn" in case else (AGG_FNS if orig else AGG_FNS + ["default"])
+        npdt = float if vd == "float" else int if vd == "int" else np.dtype(vd)
+        for vw in _value_words(case, L, vd):
+            for fn in fns:
                 sub = {"check": "agg", "shape": case["shape"], "subs": case["subs"], "nd": nd,
                        "vals_list": list(vw), "fn": fn, "vdtype": vd}
                 p = Probe(ctx, sub)
                 groups = {}
                 for s, v in zip(subs, vw):
                     groups.setdefault(s, []).append(v)
-                A = np.zeros(out_shape)
-                for s, vs in groups.items():
-                    A[s] = _reduce(fn, vs)
-                if dup and np.count_nonzero(A):
-                    ctx.nontriv()
-                if dup and any(_reduce(fn, vs) == 0 for vs in groups.values()):
-                    ctx.flag("agg:cancelling_duplicates")
+                red = {s: _reduce(fn, vs) for s, vs in groups.items()}
+                if not orig and not all(_I64[0] <= r <= _I64[1] for r in red.values()):
+                    # the combined value leaves even the platform integer: outside the quantifier (run, not asserted)
+                    ctx.inadm()
+                    red = None
+                if red is not None:
+                    if dup and any(red.values()):
+                        ctx.nontriv()
+                    if dup and any(r == 0 for r in red.values()):
+                        ctx.flag("agg:cancelling_duplicates")
+                    if not orig and any(not (_storage_fits(vd, r)) for r in red.values()):
+                        ctx.flag("agg:combined_value_leaves_storage")
                 sa = np.array(subs, dtype=int).reshape(L, nd)
-                va = np.array(vw, dtype=float if vd == "float" else int).reshape(L, 1)
-                variant = fn if L != 1 else fn + "/single"
-                ok, S = p.call("sptensor.from_aggregator",
-                               lambda: ttb.sptensor.from_aggregator(sa, va, shp, _fn_arg(fn)) if fn != "sum" or vd == "int"
-                               else ttb.sptensor.from_aggregator(sa, va, shp), variant)
-                if ok and _check_sparse(p, "sptensor.from_aggregator", S, A, variant):
-                    ctx.outcome([S.subs, S.vals, list(S.shape)])
+                va = np.array(vw, dtype=npdt).reshape(L, 1)
+                variant = fn + "/single" if L == 1 else fn if orig else fn + "/" + _storage_kind(vd)
+                if fn == "default" or (fn == "sum" and vd == "float"):
+                    ok, S = p.call("sptensor.from_aggregator", lambda: ttb.sptensor.from_aggregator(sa, va, shp), variant)
+                else:
+                    ok, S = p.call("sptensor.from_aggregator",
+                                   lambda: ttb.sptensor.from_aggregator(sa, va, shp, _fn_arg(fn)), variant)
+                if ok and red is not None:
+                    if orig:
+                        A = np.zeros(out_shape)
+                        for s, r in red.items():
+                            A[s] = r
+                        good = _check_sparse(p, "sptensor.from_aggregator", S, A, variant)
+                    else:
+                        good = _check_combined(p, "sptensor.from_aggregator", S, out_shape,
+                                               {s: r for s, r in red.items() if r != 0}, variant)
+                    if good:
+                        ctx.outcome([S.subs, S.vals, list(S.shape)])
                 if ok:
                     p.expect("sptensor.from_aggregator",
-                             rm.same(sa, np.array(subs, dtype=int).reshape(L, nd)) and rm.same(va.astype(float),
-                                                                                             np.array(vw).reshape(L, 1)),
+                             rm.same(sa, np.array(subs, dtype=int).reshape(L, nd))
+                             and va.dtype == np.dtype(npdt) and va.reshape(-1).tolist() == np.array(vw, dtype=npdt).tolist(),
                              "operand_mutated", "subs/vals changed", variant)
+
+
+def _storage_fits(vd, r):
+    d = np.dtype(vd)
+    if d.kind == "f":
+        return True
+    if d.kind == "b":
+        return r in (0, 1)
+    ii = np.iinfo(d)
+    return r == int(r) and int(ii.min) <= r <= int(ii.max)
 
 
 # =====================================================================================
